@@ -69,6 +69,7 @@ type c08Env struct {
 	lastDiff map[string]string
 	pairs    map[uint64]lendtypes.Extended_Pair
 	sampled  map[string]bool
+	force    string // "inter-pool" / "inter-pool-2": the next txStep opens an inter-pool borrow close to its LTV bound (second form: through the second transit asset)
 	panicked bool
 }
 
@@ -515,13 +516,19 @@ func (e *c08Env) maxLoan(p lendtypes.Extended_Pair, lendPool uint64, collAsset u
 	if pool == nil {
 		return new(big.Int)
 	}
+	// the bridge goes through the first transit asset when the lend's pool holds enough of it, otherwise
+	// through the second one (same rule as the code; only used to aim the amounts, never to judge)
 	t1 := pool.T1
+	xl := mon.FloorRat(new(big.Rat).Mul(new(big.Rat).SetInt(x), ltv))
+	q := mon.MaxUnits(e.u.Value(collAsset, xl), e.u.Value(t1, big.NewInt(1)))
+	if q.Cmp(c08bi(e.poolBal(lendPool, e.u.Assets[t1].Denom))) >= 0 {
+		t1 = pool.T2
+		q = mon.MaxUnits(e.u.Value(collAsset, xl), e.u.Value(t1, big.NewInt(1)))
+	}
 	tpar, found := e.c.App.LendKeeper.GetAssetRatesParams(ctx, t1)
 	if !found {
 		return new(big.Int)
 	}
-	xl := mon.FloorRat(new(big.Rat).Mul(new(big.Rat).SetInt(x), ltv))
-	q := mon.MaxUnits(e.u.Value(collAsset, xl), e.u.Value(t1, big.NewInt(1)))
 	return mon.MaxUnits(mon.LtvBound(e.u.Value(t1, q), c08DecRat(tpar.Ltv)), unitOut)
 }
 
@@ -631,6 +638,11 @@ func (e *c08Env) txStep() {
 	if len(us.lends) == 0 && e.rnd.Intn(4) != 0 {
 		op = "lend"
 	}
+	forced := e.force
+	e.force = ""
+	if forced != "" {
+		op, foreign = "borrow-alternate", false
+	}
 	if foreign {
 		rec.Count("cross_user_attempts", 1)
 	}
@@ -733,8 +745,29 @@ func (e *c08Env) txStep() {
 			pool := e.u.Pools[uint64(1+e.rnd.Intn(2))]
 			poolID, assetID = pool.ID, pool.Assets[e.rnd.Intn(len(pool.Assets))]
 			x, xcls = e.typicalAmount(), "typical"
+			if forced != "" {
+				assetID = pool.Main
+			}
+			if forced == "inter-pool-2" {
+				// collateral large enough that the pool's first transit asset cannot carry the bridge
+				if par, found := k.GetAssetRatesParams(e.c.Ctx(), assetID); found {
+					need := e.u.Value(pool.T1, c08bi(e.poolBal(poolID, e.u.Assets[pool.T1].Denom)))
+					need.Mul(need, big.NewRat(int64(1010+e.rnd.Intn(200)), 1000))
+					need.Quo(need, c08DecRat(par.Ltv))
+					x = new(big.Int).Add(mon.MaxUnits(need, e.u.Value(assetID, big.NewInt(1))), big.NewInt(1_000_000))
+				}
+			}
 		}
 		pairIDs := e.pairsFor(assetID, poolID)
+		if forced != "" {
+			var ip []uint64
+			for _, id := range pairIDs {
+				if p, ok := e.pair(id); ok && p.IsInterPool {
+					ip = append(ip, id)
+				}
+			}
+			pairIDs = ip
+		}
 		mismatch := false
 		if op == "borrow" && e.rnd.Intn(100) < 6 {
 			// a pair of the same pool whose collateral asset is not the lend's asset
@@ -749,7 +782,7 @@ func (e *c08Env) txStep() {
 			return
 		}
 		pid := pairIDs[e.rnd.Intn(len(pairIDs))]
-		if e.rnd.Intn(40) == 0 {
+		if e.rnd.Intn(40) == 0 && forced == "" {
 			pid = uint64(1 + e.rnd.Intn(20))
 		}
 		p, found := e.pair(pid)
@@ -787,6 +820,9 @@ func (e *c08Env) txStep() {
 			}
 		}
 		loan, lcls := e.loanClass(max, c08bi(poolBal))
+		if forced != "" {
+			loan, lcls = new(big.Int).Quo(new(big.Int).Mul(max, big.NewInt(int64(930+e.rnd.Intn(71)))), big.NewInt(1000)), "typical"
+		}
 		path := op + "-new"
 		if existing != nil {
 			path = "topup" // deposit-borrow + draw on the existing position of the pair
@@ -1149,7 +1185,7 @@ func TestC08(t *testing.T) {
 	runs := ev.Pick(4, 14)
 	steps := ev.Pick(1500, 6000)
 	for run := 0; run < runs; run++ {
-		variant := (run + ev.ShardNo()) % 3
+		variant := (run+ev.ShardNo())%3 + 3*(((run+ev.ShardNo())/3)%2)
 		liqRun := (run+ev.ShardNo()/3)%2 == 1
 		c08Run(t, rec, rnd, run, variant, liqRun, steps)
 	}
@@ -1189,7 +1225,10 @@ func c08Setup(t *testing.T, rec *ev.Rec, rnd *rand.Rand, run, variant int, liqRu
 		}
 		e.log(fmt.Sprintf("%s at height %d panicked: %v", phase, h, r))
 	}
-	e.u = lendUniverse(t, c, variant)
+	// variant = universe variant (0..2) + 3 when the FIRST transit asset is the scarce one, so that inter-pool
+	// borrows are routed through the second transit asset as well
+	scarceFirst := (variant/3)%2 == 1
+	e.u = lendUniverse(t, c, variant%3)
 	c.NextBlock(6 * time.Second)
 	// liquidity: the funder (account 5) funds pools and the reserve through real transactions
 	funder := c.Accts[5]
@@ -1198,8 +1237,8 @@ func c08Setup(t *testing.T, rec *ev.Rec, rnd *rand.Rand, run, variant int, liqRu
 		for _, aid := range p.Assets {
 			a := e.u.Assets[aid]
 			amt := sdk.NewInt(50_000_000_000)
-			if aid == p.T2 {
-				amt = sdk.NewInt(3_000_000) // scarce second transit asset: "pool does not hold the coins" is reachable
+			if (aid == p.T2 && !scarceFirst) || (aid == p.T1 && scarceFirst) {
+				amt = sdk.NewInt(3_000_000) // one scarce transit asset: "pool does not hold the coins" is reachable
 			}
 			res := c.Deliver(funder, lendtypes.NewMsgFundModuleAccounts(pid, aid, funder.Addr.String(), sdk.NewCoin(a.Denom, amt)))
 			if !res.OK() {
